@@ -16,13 +16,13 @@ Definition src_mm_ge (l r : measurements) : option bool :=
 
 Lemma lex_compare_lt : forall a b, lex_compare CLt a b = lt_lex a b.
 Proof.
-  induction a as [|x a IH]; intros [|y b]; cbn [lex_compare lt_lex test]; try reflexivity.
+  induction a as [|x a IH]; intros [|y b]; cbn [lex_compare lt_lex test test_s]; try reflexivity.
   rewrite IH. reflexivity.
 Qed.
 
 Lemma equal3_with_eq : forall a b, length a = length b -> equal3_with CEq a b = Some (equal3 a b).
 Proof.
-  induction a as [|x a IH]; intros [|y b] L; cbn [equal3_with equal3 test]; try discriminate L; try reflexivity.
+  induction a as [|x a IH]; intros [|y b] L; cbn [equal3_with equal3 test test_s]; try discriminate L; try reflexivity.
   injection L as L. destruct (F64.eqb x y); [apply IH; exact L|reflexivity].
 Qed.
 
@@ -64,7 +64,7 @@ Lemma src_dom_loop : forall a b ob,
   dom_run (d_body dominating_def) (d_bound dominating_def) ob a b = Some (dom_loop ob a b).
 Proof.
   induction a as [|x a IH]; intros [|y b] ob; try reflexivity.
-  cbn [dom_run d_body d_bound dominating_def exec test act dom_loop].
+  cbn [dom_run d_body d_bound dominating_def exec test test_s act dom_loop].
   destruct (F64.gtb x y).
   - apply IH.
   - destruct (F64.ltb x y); [reflexivity|apply IH].
@@ -80,7 +80,7 @@ Qed.
 
 Lemma src_mm : forall l r, src_mm_ge l r = Some (mm_ge l r).
 Proof.
-  intros l r. unfold src_mm_ge, mm_ge. cbn [reval mm_ge_def pick obind test].
+  intros l r. unfold src_mm_ge, mm_ge. cbn [reval mm_ge_def pick obind test test_s].
   change (dom_eval dominating_def (m_fitness l) (m_fitness r)) with (src_dominating (m_fitness l) (m_fitness r)).
   rewrite src_dom. cbn [obind]. destruct (dominating (m_fitness l) (m_fitness r)); reflexivity.
 Qed.
@@ -94,6 +94,106 @@ Proof.
   intros a b l r.
   exact (conj (src_lt a b) (conj (src_eq a b) (conj (src_gt a b) (conj (src_ge a b)
         (conj (src_le a b) (conj (src_ne a b) (conj (src_dom a b) (src_mm l r)))))))).
+Qed.
+
+(* ------------------------------------------------------------------ *)
+(* the arithmetic, the lifts, distance, combine, the scalar round_to *)
+Definition src_plus (a b : vec) := veval_binary plus_def a b.
+Definition src_minus (a b : vec) := veval_binary minus_def a b.
+Definition src_times (a b : vec) := veval_binary times_def a b.
+Definition src_div_scalar (f : vec) (v : f64) := veval_unary div_scalar_def f v.
+Definition src_mul_scalar (f : vec) (v : f64) := veval_unary mul_scalar_def f v.
+Definition src_abs (f : vec) := veval_unary abs_def f F64.zero.
+Definition src_sqrt (f : vec) := veval_unary sqrt_def f F64.zero.
+Definition src_round_to (f : vec) := veval_unary round_to_def f F64.zero.
+Definition src_distance (a b : vec) := veval_inner distance_def a b.
+Definition src_combine (a b : vec) := veval_concat combine_def a b.
+Definition src_isfinite (f : vec) := lift_eval isfinite_def f.
+Definition src_isnan (f : vec) := lift_eval isnan_def f.
+Definition src_issmall (f : vec) := lift_eval issmall_def f.
+Definition src_isnonnegative (f : vec) := lift_eval isnonnegative_def f.
+Definition src_almost_equal (a b : vec) (e : f64) := pair_lift_eval almost_equal_def a b e.
+Definition src_round_to_scalar (x : f64) := eeval round_to_scalar_def x F64.zero F64.zero.
+
+Lemma src_round_to_scalar_ok : forall x, src_round_to_scalar x = round_to_scalar x.
+Proof. intro x. reflexivity. Qed.
+
+Lemma src_plus_ok : forall a b, src_plus a b = plus a b.
+Proof. reflexivity. Qed.
+Lemma src_minus_ok : forall a b, src_minus a b = minus a b.
+Proof. reflexivity. Qed.
+Lemma src_times_ok : forall a b, src_times a b = times a b.
+Proof. reflexivity. Qed.
+Lemma src_div_scalar_ok : forall f v, src_div_scalar f v = Some (div_scalar f v).
+Proof. reflexivity. Qed.
+Lemma src_mul_scalar_ok : forall f v, src_mul_scalar f v = Some (mul_scalar f v).
+Proof. reflexivity. Qed.
+Lemma src_abs_ok : forall f, src_abs f = Some (vabs f).
+Proof. reflexivity. Qed.
+Lemma src_sqrt_ok : forall f, src_sqrt f = Some (vsqrt f).
+Proof. reflexivity. Qed.
+Lemma src_round_to_ok : forall f, src_round_to f = Some (round_to f).
+Proof. reflexivity. Qed.
+
+Lemma inner_product_with_ok : forall a b init,
+  inner_product_with F64.add (fun x y => F64.abs (F64.sub x y)) a b init = inner_product a b init.
+Proof.
+  induction a as [|x a IH]; intros [|y b] init; cbn [inner_product_with inner_product]; try reflexivity.
+  apply IH.
+Qed.
+
+Lemma src_distance_ok : forall a b, src_distance a b = distance a b.
+Proof.
+  intros a b. unfold src_distance, distance. cbn [veval_inner distance_def negb orb ebin_eval].
+  destruct (Nat.eqb (length a) (length b)); [|reflexivity].
+  change (fun x y : f64 => eeval (ECall FAbs (EBin BSub EL ER)) x y F64.zero)
+    with (fun x y : f64 => F64.abs (F64.sub x y)).
+  apply inner_product_with_ok.
+Qed.
+
+Lemma src_combine_ok : forall a b, src_combine a b = Some (combine_fit a b).
+Proof. reflexivity. Qed.
+
+Lemma src_isfinite_ok : forall f, src_isfinite f = vis_finite f.
+Proof. reflexivity. Qed.
+Lemma src_isnan_ok : forall f, src_isnan f = vis_nan f.
+Proof. reflexivity. Qed.
+Lemma src_issmall_ok : forall f, src_issmall f = vissmall f.
+Proof. reflexivity. Qed.
+Lemma src_isnonnegative_ok : forall f, src_isnonnegative f = visnonnegative f.
+Proof. reflexivity. Qed.
+
+Lemma all_pairs_almost : forall a b e,
+  all_pairs (test_s e (CAlmostE EScalar)) a b = almost_equal_loop a b e.
+Proof.
+  induction a as [|x a IH]; intros [|y b] e; cbn [all_pairs almost_equal_loop]; try reflexivity.
+  change (test_s e (CAlmostE EScalar) x y) with (almost_equal x y e).
+  rewrite IH. reflexivity.
+Qed.
+
+Lemma src_almost_equal_ok : forall a b e, src_almost_equal a b e = valmost_equal a b e.
+Proof.
+  intros a b e. unfold src_almost_equal, pair_lift_eval, valmost_equal.
+  cbn [almost_equal_def pl_eq_sizes pl_test negb orb].
+  destruct (Nat.eqb (length a) (length b)); [apply all_pairs_almost|reflexivity].
+Qed.
+
+Theorem source_arithmetic_is_the_model : forall a b f v e x,
+  src_plus a b = plus a b /\ src_minus a b = minus a b /\ src_times a b = times a b /\
+  src_div_scalar f v = Some (div_scalar f v) /\ src_mul_scalar f v = Some (mul_scalar f v) /\
+  src_abs f = Some (vabs f) /\ src_sqrt f = Some (vsqrt f) /\ src_round_to f = Some (round_to f) /\
+  src_round_to_scalar x = round_to_scalar x /\
+  src_distance a b = distance a b /\ src_combine a b = Some (combine_fit a b) /\
+  src_isfinite f = vis_finite f /\ src_isnan f = vis_nan f /\
+  src_issmall f = vissmall f /\ src_isnonnegative f = visnonnegative f /\
+  src_almost_equal a b e = valmost_equal a b e.
+Proof.
+  intros a b f v e x.
+  exact (conj (src_plus_ok a b) (conj (src_minus_ok a b) (conj (src_times_ok a b)
+        (conj (src_div_scalar_ok f v) (conj (src_mul_scalar_ok f v) (conj (src_abs_ok f) (conj (src_sqrt_ok f)
+        (conj (src_round_to_ok f) (conj (src_round_to_scalar_ok x) (conj (src_distance_ok a b)
+        (conj (src_combine_ok a b) (conj (src_isfinite_ok f) (conj (src_isnan_ok f) (conj (src_issmall_ok f)
+        (conj (src_isnonnegative_ok f) (src_almost_equal_ok a b e)))))))))))))))).
 Qed.
 
 (* the same statement one level up, as an illustration: trichotomy of the
